@@ -894,5 +894,5 @@ THEOREMS = THEOREMS + ["OdxVerif.Codec." + t for t in [
     "C05_truncated_leading_described2", "C05_truncated_matching_described2", "C05_truncated_reserved_described2",
     "C05_truncated_minmax_described2_example", "C05_truncated_matching_described2_example",
     "C05_truncated_leading_described2_example", "C05_truncated_reserved_described2_example",
-    "C05_leaf_requests_are_reads_partial", "decodeDctL_requests", "extractAtomicL_strict",
+    "C05_leaf_requests_are_reads", "decodeDctL_requests", "extractAtomicL_strict",
     "C05_requests_are_reads", "C05_short_request_is_reads", "cov_decode_all", "flag_decode_all", "decodeMessageL_log"]]
